@@ -1,0 +1,27 @@
+//go:build verif
+
+package route
+
+import (
+	"net/http"
+
+	"google.golang.org/grpc"
+)
+
+// Verification hooks for property C23 (responses reflect what happened to the data).
+// Export only; no behaviour lives here. Compiled only with -tags verif.
+
+// VerifC23Handler returns the HTTP handler (gorilla mux with all middlewares) built by LnS.
+func (r *Router) VerifC23Handler() http.Handler { return r.server.Handler }
+
+// VerifC23Event calls the /1/events handler directly (below the mux and its middlewares).
+func (r *Router) VerifC23Event(w http.ResponseWriter, req *http.Request) { r.event(w, req) }
+
+// VerifC23Batch calls the /1/batch handler directly (below the mux and its middlewares).
+func (r *Router) VerifC23Batch(w http.ResponseWriter, req *http.Request) { r.batch(w, req) }
+
+// VerifC23RegisterGRPC registers the router's OTLP trace service on a caller-supplied gRPC server
+// exactly as LnS does (the logs service has an exported constructor and registration already).
+func (r *Router) VerifC23RegisterGRPC(s *grpc.Server) {
+	registerCustomTraceService(s, NewTraceServer(r))
+}
